@@ -134,6 +134,7 @@ func (c Cache) Imports() []string {
 	for k := range unique {
 		imports = append(imports, fmt.Sprintf("%q", k))
 	}
+	sort.Strings(imports) // map iteration order is random : keep the output deterministic
 	return imports
 }
 
